@@ -278,6 +278,23 @@ class C11(Spec):
             sk = sorted(keys)
             cases.append(Case('rnds%d' % k, ['esize %d' % es] + arr_lines(sk) + ['cmpmode %d' % rnd.randrange(3)],
                               ['search %d' % rnd.randrange(nk), 'vsearch %d' % rnd.randrange(nk)], 'random'))
+        # boundary values of rand(): 0, RAND_MAX and neighbours, alone and mixed with ordinary draws
+        RM = 2 ** 31 - 1
+        for k in range(40 if tier == 'quick' else 400):
+            n = rnd.choice([2, 3, 4, 5, 7, 9, 16])
+            keys = [rnd.randrange(rnd.choice([2, 4, 256])) for _ in range(n)]
+            es = rnd.choice(ESIZES)
+            hdr = ['esize %d' % es] + arr_lines(keys) + ['vcap %d' % (k % 3), 'cmpmode %d' % rnd.randrange(3)]
+            mode = k % 4
+            def draw():
+                if mode == 0:
+                    return RM
+                if mode == 1:
+                    return rnd.choice([RM, RM - 1, 0, 1])
+                return rnd.choice([RM, RM, rnd.randrange(0, 2 ** 31), rnd.randrange(0, n + 1)])
+            ops = ['sort 1 ' + ' '.join(str(draw()) for _ in range(3 * n + 4)),
+                   'vsort 1 ' + ' '.join(str(draw()) for _ in range(3 * n + 4))]
+            cases.append(Case('rndb%d' % k, hdr, ops, 'random'))
         return cases
 
     def corpus(self):
